@@ -4,14 +4,14 @@ use crate::support::*;
 use educe::Educe;
 use core::cmp::Ordering;
 #[derive(Educe)]
-#[repr(i64)]
-#[educe(Eq, PartialOrd, PartialEq)]
-pub enum T { B { _0: u8, c: u8, arg: bool } = 127, None = 3, Some { #[educe(PartialOrd(rank = 2))] b: u8, y: ::core::num::NonZeroU8 } = 1 }
+#[repr(isize)]
+#[educe(PartialEq, Eq, PartialOrd)]
+pub enum T { Zed { #[educe(PartialOrd(rank("-2")))] source: &'static u8, x: i64 } = -1, Some = 1, Unit(#[educe(PartialOrd(rank = 0x1))] &'static u8, i64) = 200, B = 2 }
 
-pub fn values() -> Vec<T> { vec![T::B { _0: 0, c: 100, arg: false }, T::B { _0: 100, c: 200, arg: true }, T::B { _0: 200, c: 100, arg: true }, T::B { _0: 200, c: 100, arg: false }, T::B { _0: 100, c: 200, arg: false }, T::B { _0: 0, c: 200, arg: false }, T::B { _0: 200, c: 200, arg: true }, T::B { _0: 0, c: 100, arg: true }, T::B { _0: 100, c: 0, arg: false }, T::B { _0: 100, c: 100, arg: false }, T::B { _0: 100, c: 0, arg: true }, T::B { _0: 100, c: 100, arg: true }, T::None, T::Some { b: 0, y: ::core::num::NonZeroU8::new(1).unwrap() }, T::Some { b: 0, y: ::core::num::NonZeroU8::new(200).unwrap() }, T::Some { b: 100, y: ::core::num::NonZeroU8::new(1).unwrap() }, T::Some { b: 100, y: ::core::num::NonZeroU8::new(200).unwrap() }, T::Some { b: 200, y: ::core::num::NonZeroU8::new(1).unwrap() }, T::Some { b: 200, y: ::core::num::NonZeroU8::new(200).unwrap() }] }
-pub fn show(x: &T) -> String { #[allow(unused_variables)] match x { T::B { _0: p0, c: p1, arg: p2 } => format!("B({},{},{})", sv(p0), sv(p1), sv(p2)), T::None => format!("None()"), T::Some { b: p0, y: p1 } => format!("Some({},{})", sv(p0), sv(p1)) } }
-pub fn o_disc(x: &T) -> i128 { match x { T::B { _0: _, c: _, arg: _ } => 127, T::None => 3, T::Some { b: _, y: _ } => 1 } }
-pub fn o_pcmp(a: &T, b: &T) -> Option<Ordering> { match (a, b) { (T::B { _0: a0, c: a1, arg: a2 }, T::B { _0: b0, c: b1, arg: b2 }) => { match ::core::cmp::PartialOrd::partial_cmp(a0, b0) { Some(Ordering::Equal) => (), x => return x } match ::core::cmp::PartialOrd::partial_cmp(a1, b1) { Some(Ordering::Equal) => (), x => return x } match ::core::cmp::PartialOrd::partial_cmp(a2, b2) { Some(Ordering::Equal) => (), x => return x } Some(Ordering::Equal) }, (T::None, T::None) => {  Some(Ordering::Equal) }, (T::Some { b: a0, y: a1 }, T::Some { b: b0, y: b1 }) => { match ::core::cmp::PartialOrd::partial_cmp(a1, b1) { Some(Ordering::Equal) => (), x => return x } match ::core::cmp::PartialOrd::partial_cmp(a0, b0) { Some(Ordering::Equal) => (), x => return x } Some(Ordering::Equal) }, _ => Some(o_disc(a).cmp(&o_disc(b))) } }
+pub fn values() -> Vec<T> { vec![T::Zed { source: &3u8, x: -5 }, T::Zed { source: &3u8, x: 0 }, T::Zed { source: &3u8, x: 9 }, T::Zed { source: &200u8, x: -5 }, T::Zed { source: &200u8, x: 0 }, T::Zed { source: &200u8, x: 9 }, T::Some, T::Unit(&3u8, -5), T::Unit(&3u8, 0), T::Unit(&3u8, 9), T::Unit(&200u8, -5), T::Unit(&200u8, 0), T::Unit(&200u8, 9), T::B] }
+pub fn show(x: &T) -> String { #[allow(unused_variables)] match x { T::Zed { source: p0, x: p1 } => format!("Zed({},{})", sv(p0), sv(p1)), T::Some => format!("Some()"), T::Unit(p0, p1) => format!("Unit({},{})", sv(p0), sv(p1)), T::B => format!("B()") } }
+pub fn o_disc(x: &T) -> i128 { match x { T::Zed { source: _, x: _ } => -1, T::Some => 1, T::Unit(_, _) => 200, T::B => 2 } }
+pub fn o_pcmp(a: &T, b: &T) -> Option<Ordering> { match (a, b) { (T::Zed { source: a0, x: a1 }, T::Zed { source: b0, x: b1 }) => { match ::core::cmp::PartialOrd::partial_cmp(a1, b1) { Some(Ordering::Equal) => (), x => return x } match ::core::cmp::PartialOrd::partial_cmp(a0, b0) { Some(Ordering::Equal) => (), x => return x } Some(Ordering::Equal) }, (T::Some, T::Some) => {  Some(Ordering::Equal) }, (T::Unit(a0, a1), T::Unit(b0, b1)) => { match ::core::cmp::PartialOrd::partial_cmp(a1, b1) { Some(Ordering::Equal) => (), x => return x } match ::core::cmp::PartialOrd::partial_cmp(a0, b0) { Some(Ordering::Equal) => (), x => return x } Some(Ordering::Equal) }, (T::B, T::B) => {  Some(Ordering::Equal) }, _ => Some(o_disc(a).cmp(&o_disc(b))) } }
 #[repr(C)] pub struct Wrap { pub pre: u8, pub x: T, pub post: [u8; 9] }
 pub fn wrap(i: usize, n: u8) -> Wrap { Wrap { pre: n, x: values().swap_remove(i), post: [n; 9] } }
 pub fn run(out: &mut Out) { let vs = values(); for (i, a) in vs.iter().enumerate() { for (j, b) in vs.iter().enumerate() { let e = o_pcmp(a, b); let g = ::core::cmp::PartialOrd::partial_cmp(a, b); out.check(g == e, "ordlayout_12", "partial_cmp", || format!("partial_cmp({}, {}) = {:?} expected {:?}", show(a), show(b), g, e)); for n in [0u8, 1, 0x7f, 0x80, 0xff] { let wa = wrap(i, n); let wb = wrap(j, !n); let g = ::core::cmp::PartialOrd::partial_cmp(&wa.x, &wb.x); let e = o_pcmp(a, b); out.check(g == e, "ordlayout_12", "cmp_neighbours", || format!("cmp({}, {}) with neighbour bytes {} = {:?} expected {:?}", show(a), show(b), n, g, e)); } } } }
